@@ -300,7 +300,8 @@ class EvalMixin(object):
                 bv = av
             return VOpt(z3.If(c, an, bn), self.ite(c, av, bv, st, node))
         if isinstance(a, VTuple) and isinstance(b, VTuple) and len(a.items) == len(b.items):
-            return VTuple([self.ite(c, x, y, st, node) for x, y in zip(a.items, b.items)])
+            return VTuple([self.ite(c, x, y, st, node) for x, y in zip(a.items, b.items)],
+                          a.names if a.names == b.names else None)
         if isinstance(a, VRef) and isinstance(b, VRef):
             ca, cb = st.heap[a.oid], st.heap[b.oid]
             if a.oid == b.oid:
@@ -841,6 +842,8 @@ class EvalMixin(object):
             m = self.container_method(base, cell, name, st, node)
             if m is not None:
                 return m
+        if isinstance(base, VTuple) and base.names and name in base.names:
+            return base.items[base.names.index(name)]
         if isinstance(base, VStr):
             return self.str_method(base, name, st, node)
         if isinstance(base, VPy):
@@ -879,11 +882,40 @@ class EvalMixin(object):
                 try:
                     val = ast.literal_eval(n.value)
                 except Exception:
-                    return None
+                    val = self.namedtuple_table(body, n.value, st)
+                    if val is None:
+                        return None
+                    self.assumptions.add("constant %s.%s read from the source text; assumed not mutated at run time"
+                                         % (".".join((ns.module,) + ns.path), name))
+                    return val
                 self.assumptions.add("constant %s.%s read from the source text; assumed not mutated at run time"
                                      % (".".join((ns.module,) + ns.path), name))
                 return self.lift(val, st)
         return None
+
+    def namedtuple_table(self, body, node, st):
+        """{literal key: NT(literal, ...)} where NT = collections.namedtuple("NT", "f1 f2") in the same scope"""
+        if not isinstance(node, ast.Dict):
+            return None
+        nts = {}
+        for n in body:
+            if isinstance(n, ast.Assign) and len(n.targets) == 1 and isinstance(n.targets[0], ast.Name) \
+                    and isinstance(n.value, ast.Call) and getattr(n.value.func, "attr", getattr(n.value.func, "id", "")) == "namedtuple" \
+                    and len(n.value.args) == 2 and all(isinstance(a, ast.Constant) for a in n.value.args):
+                flds = n.value.args[1].value
+                nts[n.targets[0].id] = flds.replace(",", " ").split() if isinstance(flds, str) else None
+        items = {}
+        for k, v in zip(node.keys, node.values):
+            if not (isinstance(k, ast.Constant) and isinstance(k.value, str) and isinstance(v, ast.Call)
+                    and isinstance(v.func, ast.Name) and nts.get(v.func.id) and not v.keywords
+                    and len(v.args) == len(nts[v.func.id])):
+                return None
+            try:
+                vals = [ast.literal_eval(a) for a in v.args]
+            except Exception:
+                return None
+            items[k.value] = VTuple([self.lift(x, st) for x in vals], nts[v.func.id])
+        return st.alloc(HDict(items=items))
 
     def lift(self, val, st):
         if val is None:
